@@ -264,8 +264,8 @@ def r204_validator(ctx):
     ctx.ob("R20.4", fq, rows[0].node if rows else None, ok, "X and y row counts are compared (shape[0] of each) and a "
            "mismatch raises", construct="guard: X/y rows")
     # missing sensitive feature
-    miss = [e for e in raises if A.C.canon(conj(e.pc)) is A.C.canon(conj(
-        [x for x in e.pc[:-2]] + [mk("cmp", "is", sf, NONE), P["expect_sensitive_features"]]))
+    miss = [e for e in raises if any(A.C.canon(conj(e.pc)) is A.C.canon(conj(
+        [x for x in e.pc[:-k_]] + [mk("cmp", "is", sf, NONE), P["expect_sensitive_features"]])) for k_ in (1, 2) if len(e.pc) >= k_)
         or (len(e.pc) >= 2 and A.C.canon(e.pc[-1]) is P["expect_sensitive_features"]
             and A.C.canon(e.pc[-2]) is A.C.canon(mk("cmp", "is", sf, NONE)))]
     ctx.ob("R20.4", fq, miss[0].node if miss else None, bool(miss), "a missing sensitive feature raises exactly when one "
